@@ -1234,6 +1234,12 @@ func (a *alertState) addEvent(t time.Time, level alert.Level) {
 	// Check for changes
 	a.changed = a.history[a.idx] != level
 
+	// Record when the alert leaves the OK state, whether or not an event is sent for this change
+	// (flapping detection may suppress it): the duration of later events is measured from here.
+	if a.changed && a.history[a.idx] == alert.OK {
+		a.firstTriggered = t
+	}
+
 	// Add event to history
 	a.idx = (a.idx + 1) % len(a.history)
 	a.history[a.idx] = level
